@@ -203,7 +203,7 @@ def permute_systems(
 
     # If the dimensions are specified, ensure they are given to the
     # recursive calls as flattened lists.
-    if len(dim[0][:]) == 1:
+    if dim.ndim == 3:
         dim = functools.reduce(operator.iconcat, dim, [])
 
     row_perm = permute_systems(vec_arg, perm, dim[0][:], False, inv_perm)
